@@ -22,6 +22,11 @@ def run(prog, rep, tier):
     import r_lex
     apply(rep, "N3", "`E?` is (E,) and closures are only merged with a closure directly beneath them (grammar actions interpreted from source)", r_lex.n3(prog), 4)
     apply(rep, "T2", "work-list push only after successful seen-set insertion", r_stream.t2(prog), 1)
+    e9 = r_stream.e9(prog, tier)
+    if getattr(e9, "broken", None):
+        apply(rep, "E9", "E* and E+ over converging bodies, alone, on two inputs and inside a capture (engine interpreted against the reference semantics)", e9, 1)
+    else:
+        apply(rep, "E9", "E* and E+ over converging bodies, alone, on two inputs and inside a capture (engine interpreted against the reference semantics)", ([i for i in e9[0] if i[0] in ('E9:closure',)], [f for f in e9[1] if f["key"] in ('E9:closure',)]), 1)
     if tier == "thorough" and not os.environ.get("VERIF_NO_MUTANTS"):
         import mutants
         mutants.run_mutants("C10", rep)
